@@ -6,7 +6,7 @@
    steps (including a stale callback that passes its version test and stores
    after a newer re-arm) is the level-2 model, Properties/C16_L2.v.
    Statements only. *)
-From CV Require Import Base.Prelude Seq.TimedCheck Seq.TimedCheck_Proofs.
+From CV Require Import Base.Prelude Seq.TimedCheck Seq.TimedCheck_Proofs Seq.TimedCheckLive.
 
 (* after the latest re-arm -- SleepStart(t), or the budget-exhausting successful
    Check at t -- with timer duration d, Check(now) is false for every now < t + d,
@@ -42,6 +42,20 @@ Theorem c16_fire_current : forall c k v,
   tc_fastfail (tc_fire k c) = (if v =? tc_version c then false else tc_fastfail c).
 Proof. exact tc_fire_current. Qed.
 
+(* "whenever the timer callback happens to fire" covers real timers too: with timer objects
+   that a re-arm stops (lastSetTimer.Stop()), that never fire once stopped and fire at most once,
+   every history has exactly the observations it has when any registered callback may run at any
+   time and any number of times -- so the three statements above hold of the library on real
+   timers, and the harness may hand out live timers and honour Stop() against this model *)
+Theorem c16_live_timers_invisible : forall sleep budget h,
+  lrun sleep budget h = tc_run sleep budget h.
+Proof. exact live_timers_invisible. Qed.
+
+Example c16_live_timers_example :
+  lrun 10 1 [TSleepStart 0; TSleepStart 5; TFire 0; TCheck 20; TFire 1; TFire 1; TCheck 20; TCheck 21]
+  = [TOArmed 10; TOArmed 10; TONone; TOBool false None; TONone; TONone; TOBool true (Some 10); TOBool false None].
+Proof. exact live_timers_example. Qed.
+
 (* non-vacuity: budget 2, a stale and a current callback, out-of-order stamps *)
 Example c16_example :
   tc_run 10 2 [TSleepStart 90; TFire 0; TCheck 99; TCheck 109; TCheck 100; TFire 0; TCheck 115; TFire 1; TCheck 109; TCheck 110]
@@ -53,4 +67,6 @@ Print Assumptions c16_closed_until.
 Print Assumptions c16_at_most_budget.
 Print Assumptions c16_exactly_budget.
 Print Assumptions c16_fire_current.
+Print Assumptions c16_live_timers_invisible.
+Print Assumptions c16_live_timers_example.
 Print Assumptions c16_example.
